@@ -1,5 +1,6 @@
 import GGV.Run.Proto
 import GGV.Model.Checkers
+import GGV.Model.Implements
 /-! `apf` suite: reader of the abstract program format and the stateful session
     (configuration, facts of the packages analysed so far). Tooling, not part of any proof. -/
 namespace GGV.Run
@@ -193,14 +194,44 @@ def pFile (t : Toks) : P File := do
   let decls ← rep nd (pDecl t)
   pure ⟨name, ppos, fend, imps, cms, decls⟩
 
-def pPkg (t : Toks) : P Pkg := do
+def pImpl (t : Toks) : P ImplInfo := do
+  let i ← get
+  match t.a[i]? with
+  | some "IMPL" =>
+    set (i + 1)
+    let ni ← t.nat
+    let ifaces ← rep ni (do
+      t.expect "IF"
+      let pkg ← t.bytes; let name ← t.bytes
+      let nm ← t.nat
+      let ms ← rep nm (do let id ← t.bytes; let n ← t.bytes; let s ← t.nat; pure (⟨id, n, s⟩ : MSig))
+      pure (⟨pkg, name, ms⟩ : IfaceDecl))
+    let nt ← t.nat
+    let types ← rep nt (do
+      t.expect "TY"
+      let name ← t.bytes; let isNamed ← t.bool; let isIface ← t.bool
+      let nm ← t.nat
+      let ms ← rep nm (do let id ← t.bytes; let n ← t.bytes; let s ← t.nat; let np ← t.bool; pure (⟨id, n, s, np⟩ : TypeMeth))
+      let ng ← t.nat
+      let gos ← rep ng (do
+        t.expect "GO"
+        let ip ← t.bytes; let iname ← t.bytes; let ptr ← t.bool; let impl ← t.bool
+        let k ← t.nat
+        let miss ← rep k t.bytes
+        pure (⟨ip, iname, ptr, impl, miss⟩ : GoVerdict))
+      pure (⟨name, isNamed, isIface, ms, gos⟩ : ImplType))
+    pure ⟨ifaces, types⟩
+  | _ => pure {}
+
+def pPkg (t : Toks) : P (Pkg × ImplInfo) := do
   t.expect "PKG"
   let id ← t.bytes; let path ← t.bytes; let name ← t.bytes
   let ni ← t.nat
   let imps ← rep ni t.bytes
   let nf ← t.nat
   let files ← rep nf (pFile t)
-  pure ⟨id, path, name, imps, files⟩
+  let impl ← pImpl t
+  pure (⟨id, path, name, imps, files⟩, impl)
 
 /-! ## well-formedness of an abstract program (decidable; evaluated on every input) -/
 
@@ -262,11 +293,20 @@ def encMarkers (ops : List Op) : String :=
     | .addModule _ => none
   if ms.isEmpty then "_" else ",".intercalate ms
 
+def implDisplay (a : ImplAnn) : Bytes := if a.qualifier = [] then a.iface else a.qualifier ++ [46] ++ a.iface
+
+def encImpl (ds : List ImplDiag) : String :=
+  if ds.isEmpty then "_" else
+  ",".intercalate (ds.map fun d =>
+    if d.code == "IMPL01" then s!"{d.pos}:IMPL01:{hex d.ann.qualifier}"
+    else if d.code == "IMPL02" then s!"{d.pos}:IMPL02:{hex (implDisplay d.ann)}"
+    else s!"{d.pos}:IMPL03:{hex (implDisplay d.ann)}:{"+".intercalate (d.missing.map hex)}")
+
 def apfPkg (s : Session) (args : List String) : Session × String :=
   let t : Toks := ⟨args.toArray⟩
   match (pPkg t).run 0 with
   | .error e => (s, "parse-error:" ++ e.replace " " "_")
-  | .ok (p, used) =>
+  | .ok ((p, info), used) =>
     if used != args.length then (s, s!"parse-error:trailing-tokens-{used}-of-{args.length}") else
     let facts := p.imports.filterMap fun id =>
       (s.facts.find? (fun f => f.1 == id)).map fun f => (f.2.1, f.2.2)
@@ -274,7 +314,9 @@ def apfPkg (s : Session) (args : List String) : Session × String :=
     let r := analyze s.cfg facts p
     let s' := { s with facts := (p.id, p.path, r.ann) :: s.facts.filter (fun f => f.1 != p.id) }
     let wf := if pkgWF p then "ok" else "bad"
-    (s', s!"diags={encDiags r.diags} wf={wf} missingfacts={missing.length} ann={encAnn r.ann} ign={encMarkers (ignoreOps s.cfg p)}")
+    let impl := checkImplements s.cfg info p implOutcome
+    let spec := checkImplements s.cfg info p goOutcome
+    (s', s!"diags={encDiags r.diags} wf={wf} missingfacts={missing.length} ann={encAnn r.ann} ign={encMarkers (ignoreOps s.cfg p)} impl={encImpl impl} implspec={encImpl spec}")
 
 def decodeNames (a : String) : Option (List Bytes) :=
   if a == "_" then some [] else (a.splitOn ",").mapM unhex
